@@ -31,6 +31,12 @@ def _query(op, q, m, dtype):
         return torch.linalg.eigvalsh(op)
     if q == "svd":
         return op.svd()
+    if q == "svd_after_jitter_svd":
+        op.add_jitter(0.5).svd()
+        return op.svd()
+    if q == "eigh_after_jitter_eigh":
+        op.add_jitter(0.5).eigh()
+        return op.eigh()
     if q == "linalg_svd":
         U, S, Vh = torch.linalg.svd(op)
         return U, S, numeric.dense(Vh).mT
@@ -83,6 +89,12 @@ def check(beh):
             st.enter_context(S.max_root_decomposition_size(thr["max_root"]))
             st.enter_context(S.fast_computations(covar_root_decomposition=thr["fast_root"]))
             q, m, rel = d["query"], d["method"], d["relation"]
+            if d["cls"] == "MixedDef":
+                # a jitter large enough to be seen if it reaches the positive-definite member
+                st.enter_context(S.cholesky_jitter(float_value=1e-3, double_value=1e-3))
+                import warnings as _w
+                st.enter_context(_w.catch_warnings())
+                _w.simplefilter("ignore")
             if rel == "cov":
                 k = 1 if m == "k1" else 2
                 if q == "sample_after_diag":
@@ -125,7 +137,14 @@ def check(beh):
             L = D(res)
             if not torch.equal(torch.tril(L) if rel == "LLt" else torch.triu(L), L):
                 fails.append("factor is not %s triangular" % ("lower" if rel == "LLt" else "upper"))
-            close(L @ L.mT if rel == "LLt" else L.mT @ L, A, "Cholesky factor does not reproduce A")
+            if d["cls"] == "MixedDef":
+                # member 0 is singular (jittered, judged by C16); member 1 is positive definite and must be factorized exactly
+                P = (L @ L.mT if rel == "LLt" else L.mT @ L)
+                if not torch.isfinite(P).all():
+                    fails.append("non-finite factor")
+                close(P[1], A[1], "Cholesky factor of the positive-definite member of a mixed batch does not reproduce it")
+            else:
+                close(L @ L.mT if rel == "LLt" else L.mT @ L, A, "Cholesky factor does not reproduce A")
         elif rel == "RRt":
             R = D(res)
             if R.shape[-2] != n:
